@@ -10,7 +10,7 @@ PROPS = {
                       "D (NEON, 4) so that array sizes, MAX_SIMD_DEGREE asserts and buffer obligations are discharged for each",
         "level_note": "NOT decided: that the linked kernels satisfy their contract (C05, assumed); build.rs feature->cfg mapping "
                       "and Platform::detect's CPUID logic are outside any contract (trusted)",
-        "units": {"quick": [v("tree"), v("hasher"), v("xof"), v("spec_lemmas"), v("tree_lemmas"), g("kernels")],
+        "units": {"quick": [v("tree"), v("tree", "B"), v("tree", "C"), v("hasher"), v("xof"), v("spec_lemmas"), v("tree_lemmas"), g("kernels")],
                   "thorough": [v("tree", "B"), v("tree", "C"), v("tree", "D"), v("hasher", "B"), v("hasher", "C"),
                                v("hasher", "D"), v("xof", "C"), s("C04")]},
         "explanation": "The result of hash / Hasher / OutputReader is proved equal to a platform-independent spec function "
